@@ -17,6 +17,7 @@ import (
 	"time"
 
 	"nhooyr.io/websocket"
+	"nhooyr.io/websocket/wsjson"
 	"verif/fw"
 	"verif/refws/frame"
 	"verif/refws/handshake"
@@ -526,6 +527,9 @@ func c11Streams() []c11Stream {
 		{"msg+close", cat(c11Frame(true, 1, k1, "hi"), c11Frame(true, 8, k2, "\x03\xe9going")),
 			[]c11Msg{{false, "hi"}}, nil, 1001, "going"},
 		{"close-only", c11Frame(true, 8, k3, "\x0f\xa0x"), nil, nil, 4000, "x"},
+		// JSON documents (under C19 they are read through wsjson.Read)
+		{"json-docs", cat(c11Frame(true, 1, k1, `{"n":1}`), c11Frame(false, 1, k2, `[2,`), c11Frame(true, 0, k3, `"x"]`), c11Frame(true, 1, k1, `3`)),
+			[]c11Msg{{false, `{"n":1}`}, {false, `[2,"x"]`}, {false, `3`}}, nil, 0, ""},
 	}
 }
 
@@ -540,9 +544,14 @@ type c11BufCase struct {
 	Other bool `json:"other_connection_first"`
 }
 
-func c11BufCases() []c11BufCase {
+func c11BufCases() []c11BufCase { return c11BufCasesFor(false) }
+
+func c11BufCasesFor(jsonOnly bool) []c11BufCase {
 	var out []c11BufCase
 	for _, s := range c11Streams() {
+		if jsonOnly && !strings.HasPrefix(s.Name, "json") {
+			continue
+		}
 		maxK := len(s.Wire)
 		if maxK > 64 {
 			maxK = 64
@@ -650,7 +659,17 @@ func c11BufOneP(c *fw.Ctx, cs c11BufCase, prop string) {
 		var typ websocket.MessageType
 		var got []byte
 		var rerr error
-		p := fw.Recover(func() { typ, got, rerr = conn.Read(ctx) })
+		p := fw.Recover(func() {
+			if prop == "C19" {
+				var v interface{}
+				typ = websocket.MessageText
+				if rerr = wsjson.Read(ctx, conn, &v); rerr == nil {
+					got, _ = json.Marshal(v)
+				}
+				return
+			}
+			typ, got, rerr = conn.Read(ctx)
+		})
 		if p != "" {
 			c.Violate(pc("C11/panic"), fmt.Sprintf("%+v: Read panicked: %s", cs, p), cs)
 			return
@@ -720,7 +739,7 @@ func c11BufOneP(c *fw.Ctx, cs c11BufCase, prop string) {
 func c11BufRun(c *fw.Ctx, shard, nshards int) { c11BufRunP(c, shard, nshards, "C11") }
 
 func c11BufRunP(c *fw.Ctx, shard, nshards int, prop string) {
-	cases := c11BufCases()
+	cases := c11BufCasesFor(prop == "C19")
 	kinds := map[string]struct{}{}
 	for i, cs := range cases {
 		if shard == 0 {
@@ -762,7 +781,7 @@ func init() {
 			c11One(c, cs)
 		},
 	})
-	for _, prop := range []string{"C03", "C06", "C15"} {
+	for _, prop := range []string{"C01", "C03", "C06", "C15", "C19"} {
 		prop := prop
 		fw.Register(fw.Part{
 			Prop: prop, Name: "accepted",
